@@ -857,7 +857,7 @@ func (s *Server) InjectPacket(cl *Client, pk packets.Packet) error {
 // processPublish processes a Publish packet.
 func (s *Server) processPublish(cl *Client, pk packets.Packet) error {
 	if !cl.Net.Inline && !IsValidFilter(pk.TopicName, true) {
-		return nil
+		return s.refusePublish(cl, pk, packets.ErrTopicNameInvalid)
 	}
 
 	if atomic.LoadInt32(&cl.State.Inflight.receiveQuota) == 0 {
@@ -865,21 +865,7 @@ func (s *Server) processPublish(cl *Client, pk packets.Packet) error {
 	}
 
 	if !cl.Net.Inline && !s.hooks.OnACLCheck(cl, pk.TopicName, true) {
-		if pk.FixedHeader.Qos == 0 {
-			return nil
-		}
-
-		if cl.Properties.ProtocolVersion != 5 {
-			return s.DisconnectClient(cl, packets.ErrNotAuthorized)
-		}
-
-		ackType := packets.Puback
-		if pk.FixedHeader.Qos == 2 {
-			ackType = packets.Pubrec
-		}
-
-		ack := s.buildAck(pk.PacketID, ackType, 0, pk.Properties, packets.ErrNotAuthorized)
-		return cl.WritePacket(ack)
+		return s.refusePublish(cl, pk, packets.ErrNotAuthorized)
 	}
 
 	pk.Origin = cl.ID
@@ -969,6 +955,26 @@ func (s *Server) processPublish(cl *Client, pk packets.Packet) error {
 	s.hooks.OnPublished(cl, pk)
 
 	return nil
+}
+
+// refusePublish answers a publish which will not be processed. QoS 0 messages are discarded,
+// v5 clients receive a negative acknowledgement, and v3 clients are disconnected.
+func (s *Server) refusePublish(cl *Client, pk packets.Packet, reason packets.Code) error {
+	if pk.FixedHeader.Qos == 0 {
+		return nil
+	}
+
+	if cl.Properties.ProtocolVersion != 5 {
+		return s.DisconnectClient(cl, reason)
+	}
+
+	ackType := packets.Puback
+	if pk.FixedHeader.Qos == 2 {
+		ackType = packets.Pubrec
+	}
+
+	ack := s.buildAck(pk.PacketID, ackType, 0, pk.Properties, reason)
+	return cl.WritePacket(ack)
 }
 
 // retainMessage adds a message to a topic, and if a persistent store is provided,
